@@ -155,6 +155,7 @@ def evidence(pid, tier, seed, level, results, violations, known_hits, undecided,
             'stability_reruns': {r.name: r.stability for r in proof if r.stability},
             'extraction_drops': {r.name: r.dropped for r in proof},
             'lost_hint_anchors': [n for r in proof for n in r.notes if n.startswith('lost hint')],
+            'not_under_contract': [n for r in proof for n in r.notes if n.startswith('not under contract')],
         })
     if bounded:
         cov.update({
